@@ -79,6 +79,10 @@ def run(repo, res):
                   nontrivial=False)
         res.check('C01-R2', key + ' global route', not r['global_route'], line[0], line[1],
                   'a global-declared %s is not routed to the module table' % key, nontrivial=False)
+        if r.get('nonlocal_paths'):
+            res.check('C01-R2', key + ' nonlocal route', not r.get('nonlocal_route'), line[0], line[1],
+                      'a nonlocal-declared %s is still made a local of the declaring scope (or filed with the module): it masks the '
+                      'owner\'s binding, reads before it in the inner function get E02' % key, nontrivial=False)
         nv = sorted({p for _, p in r['not_visible']})
         res.check('C01-R4', key, not nv, line[0], line[1],
                   'binding %s is not visible at %s, which Python evaluates after the binding '
@@ -90,6 +94,13 @@ def run(repo, res):
     res.count('binders', len(brecs), floor=45)
 
     drecs = R.declaration_records(repo)
+    nl = drecs.get('Nonlocal')
+    if nl is not None and not nl['undeclared']:
+        consulted = sum(r.get('nonlocal_paths', 0) for r in brecs.values())
+        res.check('C01-R2', 'nonlocal declarations are consulted when a name is bound', consulted > 0, nl['line'][0], nl['line'][1],
+                  'nonlocal statements are recorded, but no binder ever looks the identifier up in that table: the assignment still '
+                  'creates a local of the inner function and masks the owner\'s binding (E02 on reads before it)',
+                  sample='%d binder paths decide on the nonlocal table' % consulted)
     for cls in ('Global', 'Nonlocal'):
         r = drecs.get(cls)
         if r is None:
